@@ -131,6 +131,7 @@ type cfgT struct {
 	params   [][2][]byte
 	version  []byte
 	tls      bool
+	ppDeclare bool // statements whose parameter types are all unspecified are declared with wire.ParseParameters(query) itself
 	tag      int  // which server of a group this configuration builds (several servers from one option list)
 	shareMw  bool // middlewares 1.. are option VALUES shared with the other servers of the group
 	tlsEmpty int // without certificates: 0 no TLS configuration at all, 1 an empty configuration, 2 an empty non-nil certificate list, 3 a pre-sized empty list
@@ -247,7 +248,7 @@ func (c cfgT) sx() string {
 			pt = append(pt, sx(e.query, sx(ss...)))
 		}
 	}
-	return sx("cfg", sx("limit", c.limit), auth, sx(ps...), sx("version", c.version), sx("tls", c.tls), sx(mws...), sx("term", c.term), sx(pt...), sx("tlsempty", c.tlsEmpty))
+	return sx("cfg", sx("limit", c.limit), auth, sx(ps...), sx("version", c.version), sx("tls", c.tls), sx(mws...), sx("term", c.term), sx(pt...), sx("tlsempty", c.tlsEmpty), sx("pp", c.ppDeclare))
 }
 
 func (c *caseT) sxHead() string {
@@ -360,6 +361,9 @@ func caseFrom(n *node) *caseT {
 	c.cfg.tls = cf.field("tls").list[1].atom == "1"
 	if f := cf.field("tlsempty"); f != nil {
 		c.cfg.tlsEmpty = atoi(f.list[1].atom)
+	}
+	if f := cf.field("pp"); f != nil {
+		c.cfg.ppDeclare = f.list[1].atom == "1"
 	}
 	for _, m := range cf.field("mws").list[1:] {
 		c.cfg.mws = append(c.cfg.mws, m.atom == "1")
